@@ -284,6 +284,9 @@ func init() {
 			}
 			return nil, nil
 		},
+		"verifRetained": func(e *Exec, fn *ssa.Function, a []Value) (Value, *GoPanic) {
+			return e.tb.Const(64, uint64(e.retained(a[0], map[interface{}]bool{}))), nil
+		},
 		"verifAllocBytes": func(e *Exec, fn *ssa.Function, a []Value) (Value, *GoPanic) {
 			return e.tb.Const(64, uint64(e.alloc)), nil
 		},
@@ -901,4 +904,69 @@ func stringsNative3(name string) handler {
 		}
 		panic(unsupported("strings." + name))
 	}
+}
+
+// retained is the size in bytes of everything reachable from v in the executor's heap model:
+// backing arrays once (capacity x element size), string bytes, struct/array cells, map entries.
+func (e *Exec) retained(v Value, seen map[interface{}]bool) int64 {
+	switch x := v.(type) {
+	case nil:
+		return 0
+	case *Term:
+		if x.W == 0 {
+			return 1
+		}
+		return int64(x.W / 8)
+	case *FloatV:
+		return 8
+	case *StrV:
+		return 16 + int64(len(x.B))
+	case *SliceV:
+		n := int64(24)
+		if x.Base != nil && !seen[x.Base.Obj] {
+			seen[x.Base.Obj] = true
+			n += e.retained(x.Base.Obj.V, seen)
+		}
+		return n
+	case *Ptr:
+		n := int64(8)
+		if !x.IsNil() && !seen[x.Obj] {
+			seen[x.Obj] = true
+			n += e.retained(x.Obj.V, seen)
+		}
+		return n
+	case *StructV:
+		var n int64
+		for _, f := range x.F {
+			n += e.retained(f, seen)
+		}
+		return n
+	case *ArrayV:
+		var n int64
+		for _, f := range x.E {
+			n += e.retained(f, seen)
+		}
+		return n
+	case *IfaceV:
+		return 16 + e.retained(x.V, seen)
+	case *MapV:
+		n := int64(8)
+		if x.M != nil && !seen[x.M] {
+			seen[x.M] = true
+			n += 48
+			for _, en := range x.M.Entries {
+				n += 16 + e.retained(en.K, seen) + e.retained(en.V, seen)
+			}
+		}
+		return n
+	case *FuncV:
+		return 8
+	case *TupleV:
+		var n int64
+		for _, f := range x.E {
+			n += e.retained(f, seen)
+		}
+		return n
+	}
+	return 8
 }
